@@ -589,3 +589,24 @@ def rule_snapshot(ctx):
         fi = p.func("las.LASFile.read")
         ctx.bad("WR.SNAPSHOT", "las.LASFile.read#index_initial", fi, fi.node, "read() no longer records index_initial")
     ctx.floor("WR.SNAPSHOT", 1)
+
+
+def rule_frame_replace(ctx):
+    """WR.FRAME (replace clause): write(wrap=...) and write(version=...) replace one item of a section through
+    SectionItems.set_item / __setitem__.  That replacement may re-number only the group of the replaced name: a whole-section
+    renumbering (assign_duplicate_suffixes() without argument) renames other items that carry stale ':n' suffixes, which is not
+    among the documented side effects of write()."""
+    p = ctx.p
+    fi = p.func("las_items.SectionItems.set_item")
+    newp = fi.params()[-1]
+    calls = [c for c in walk_shallow(fi.node) if isinstance(c, ast.Call) and isinstance(c.func, ast.Attribute)
+             and c.func.attr == "assign_duplicate_suffixes"]
+    site = fi.qual + "#renumber-scope"
+    if not calls:
+        ctx.undecided("WR.FRAME", site, fi, fi.node, "set_item does not call assign_duplicate_suffixes directly")
+        return
+    for c in calls:
+        ok = len(c.args) == 1 and not c.keywords and ast.unparse(c.args[0]) == newp + ".useful_mnemonic"
+        ctx.check(ok, "WR.FRAME", site, fi, c, "replacing an item renumbers only the group of the new item's name",
+                  "set_item renumbers with `%s`: replacing the WRAP/VERS item in write() then renames every other item whose ':n' suffix "
+                  "is not what a fresh numbering would give (e.g. SRC:2, SRC:3 become SRC:1, SRC:2 in memory)" % unparse(c))
